@@ -302,12 +302,64 @@ fn enumerate(w: &mut World, prop: &str, seed: u64, extra: &mut BTreeMap<&'static
             images += 1;
             *extra.entry("crash_images").or_insert(0) += 1;
             // C04: the image must be safe
-            let wk = qspec::walk(&img);
+            let orig_img = img;
+            let mut img = orig_img.clone();
+            let mut wk = qspec::walk(&img);
             let mut v = qspec::Verdict::default();
             match &wk {
                 Err(e) => v.fatal = Some(e.clone()),
                 Ok(wk) => qspec::check_walk(&img, wk, false, &mut v),
             }
+            let in_par_early = par_ranges
+                .iter()
+                .any(|(a, b)| k > *a && !seq_flush_done.iter().any(|f| *f >= *b && *f < k));
+            let mut unsettled_l2 = false;
+            if v.first_problem(true).is_some() && v.fatal.is_none() && in_par_early {
+                // KF06, table side: with several tasks active an L1 entry can
+                // reach the disk while the zeroing / the slices of its L2
+                // table - written by another task, which had cleared the
+                // dirty flags - are still in flight.  An L2 table that an
+                // unpersisted request of this crash point targets is not
+                // counted: its L1 entry is dropped and the image judged again.
+                if let Ok(w0) = &wk {
+                    let mut patched = false;
+                    for (i, e) in w0.l1.iter().enumerate() {
+                        let l2off = e & 0x00ff_ffff_ffff_fe00;
+                        if l2off == 0 || l2off % cs != 0 {
+                            continue;
+                        }
+                        let l2cl = l2off / cs;
+                        let pending = cp.vols.iter().zip(&c.sel).any(|(v1, sel1)| {
+                            let r = tl.reqs[v1.req];
+                            r.len > 0
+                                && r.off / cs <= l2cl
+                                && (r.off + r.len as u64 - 1) / cs >= l2cl
+                                && sel1.iter().any(|b| !*b)
+                        });
+                        if pending {
+                            img.write(w0.hdr.l1_off + i as u64 * 8, &[0u8; 8]);
+                            patched = true;
+                        }
+                    }
+                    if patched {
+                        unsettled_l2 = true;
+                        wk = qspec::walk(&img);
+                        v = qspec::Verdict::default();
+                        match &wk {
+                            Err(e) => v.fatal = Some(e.clone()),
+                            Ok(wk) => qspec::check_walk(&img, wk, false, &mut v),
+                        }
+                        if v.first_problem(true).is_none() {
+                            *extra.entry("kf06_forgiven_images").or_insert(0) += 1;
+                            kf06.get_or_insert(format!(
+                                "{}\n  an L1 entry is on disk while writes into its L2 table by another task are not",
+                                describe_point(&tl, &cp, c)
+                            ));
+                        }
+                    }
+                }
+            }
+            let _ = unsettled_l2;
             if v.first_problem(true).is_some() && v.fatal.is_none() {
                 // Known findings about the order in which mappings and
                 // refcounts reach the disk.  Their effect is a mapping on
@@ -514,7 +566,7 @@ fn enumerate(w: &mut World, prop: &str, seed: u64, extra: &mut BTreeMap<&'static
                 Some(sp) if check_data => sp.clusters.clone(),
                 _ => w.interesting.iter().copied().take(24).collect(),
             };
-            let r = with_dev_on(w, &img, |sim, dev| {
+            let r = with_dev_on(w, &orig_img, |sim, dev| {
                 let mut problems: Vec<(String, String)> = vec![];
                 for g in &clusters {
                     let off = g * cs;
